@@ -116,18 +116,22 @@ def thread_name(text: bytes, prev=False, word=8):
     return [A(code, q, d) for q, d in wire.simple_string_chunks(text[:64], word)]
 
 
-def name32(text: bytes):
+def name32(text: bytes, word=8):
+    """A process name as one record carries it (word=4: as a kernel with 4-byte words lays it out, 16 name bytes, the upper
+    half of every argument word zero - see wire._words)."""
+    if word == 4:
+        return wire._words(text[:16].decode('utf-8', 'ignore').encode(), 4, 4)   # cut on a character boundary
     t = text[:32]
     return t + b'\x00' * (32 - len(t))
 
 
-def newthread_pair(new_tid, pid, name: bytes, qual=NONE, uniqueid=7):
+def newthread_pair(new_tid, pid, name: bytes, qual=NONE, uniqueid=7, word=8):
     return [A('TRACE_DATA_NEWTHREAD', NONE, (new_tid, pid, 0, uniqueid)),
-            A('TRACE_STRING_NEWTHREAD', qual, name32(name))]
+            A('TRACE_STRING_NEWTHREAD', qual, name32(name, word))]
 
 
-def exec_pair(pid, name: bytes, qual=NONE):
-    return [A('TRACE_DATA_EXEC', NONE, (pid, 0x1000004, 0x55, 0)), A('TRACE_STRING_EXEC', qual, name32(name))]
+def exec_pair(pid, name: bytes, qual=NONE, word=8):
+    return [A('TRACE_DATA_EXEC', NONE, (pid, 0x1000004, 0x55, 0)), A('TRACE_STRING_EXEC', qual, name32(name, word))]
 
 
 def dlopen(str_id, flags=0x2, handle=0x7000, pre=0x11):
